@@ -246,6 +246,105 @@ def rawsql_history(sql1: str, sql2: str) -> bool:
     return ok(warm == cold)
 
 
+MULTI_NAMES = ('a', 'aa', 'a.b', 'c')
+N_MULTI = 4 if os.environ.get('C30_N') == '4' else 3
+
+
+def _pick_name(i):
+    return MULTI_NAMES[0] if i == 0 else MULTI_NAMES[1] if i == 1 else MULTI_NAMES[2] if i == 2 else MULTI_NAMES[3]
+
+
+def adapt_multi(style: int, n: int, i0: int, i1: int, i2: int, i3: int) -> bool:
+    """statements with up to four $-expressions drawn from a pool with repeats and common prefixes: every occurrence is bound,
+    in order, to the value of ITS expression, under every parameter style
+
+    pre: 0 <= style < 5 and 1 <= n <= N_MULTI
+    pre: 0 <= i0 < 4 and 0 <= i1 < 4 and 0 <= i2 < 4 and 0 <= i3 < 4
+    post: _
+    """
+    st = STYLES[0] if style == 0 else STYLES[1] if style == 1 else STYLES[2] if style == 2 else STYLES[3] if style == 3 else STYLES[4]
+    names = [_pick_name(i0), _pick_name(i1), _pick_name(i2), _pick_name(i3)][:1 if n == 1 else 2 if n == 2 else 3 if n == 3 else 4]
+    sql = 'select ' + ', '.join('$' + nm for nm in names) + (" where t like 'x%'" if names[0] == 'aa' else '') + ' -- $$end'
+    from crosshair.tracers import NoTracing
+    with NoTracing():
+        core.adapted_sql_cache.clear()
+        r = _check_adapt(sql, st)
+    return ok(r is True)
+
+
+_SCOPE_DB = []
+zz = 111                      # module-level name seen by raw SQL run without explicit namespaces
+
+
+def _scope_db():
+    if not _SCOPE_DB:
+        from pony.orm import Database, Required
+        d = Database()
+        class Thing(d.Entity):
+            v = Required(int)
+        d.bind('sqlite', ':memory:'); d.generate_mapping(create_tables=True)
+        _SCOPE_DB.append(d)
+    return _SCOPE_DB[0]
+
+
+def raw_scope(api: int, mode: int, same: bool) -> bool:
+    """which namespace a $-expression of raw SQL is evaluated in: the caller's frame when no dictionary is given (local before
+    module-level name), otherwise ONLY the dictionaries given (a local variable of the caller must not shadow them).
+    api: 0 db.select, 1 db.get, 2 db.exists, 3 db.execute, 4 Entity.select_by_sql, 5 Entity.get_by_sql;
+    mode: 0 no namespaces, 1 globals only, 2 globals and locals, 3 no namespaces and no local of that name
+
+    pre: 0 <= api <= 5 and 0 <= mode <= 3
+    post: _
+    """
+    from pony.orm import db_session, rollback
+    api = 0 if api == 0 else 1 if api == 1 else 2 if api == 2 else 3 if api == 3 else 4 if api == 4 else 5
+    mode = 0 if mode == 0 else 1 if mode == 1 else 2 if mode == 2 else 3
+    gv, lv = 5, (5 if same else 9)            # value in the dictionaries / value of the caller's local
+    from crosshair.tracers import NoTracing
+    with NoTracing():
+        d = _scope_db()
+        T = d.Thing
+
+        BY = 'select id, v from Thing where v = $zz'
+
+        def with_local():
+            zz = lv                                   # a local of the caller with the same name as the $-expression
+            g1, g2, l2 = {'zz': gv}, {'zz': gv + 1}, {'zz': gv}
+            if api == 0: return (d.select('select $zz') if mode == 0 else d.select('select $zz', g1) if mode == 1 else d.select('select $zz', g2, l2))[0]
+            if api == 1: return d.get('select $zz') if mode == 0 else d.get('select $zz', g1) if mode == 1 else d.get('select $zz', g2, l2)
+            if api == 2:
+                ex = d.exists('select 1 from Thing where v = $zz') if mode == 0 else d.exists('select 1 from Thing where v = $zz', g1) if mode == 1 else d.exists('select 1 from Thing where v = $zz', g2, l2)
+                return (lv if mode == 0 else gv) if ex else None
+            if api == 3: return (d.execute('select $zz') if mode == 0 else d.execute('select $zz', g1) if mode == 1 else d.execute('select $zz', g2, l2)).fetchone()[0]
+            if api == 4:
+                r = T.select_by_sql(BY) if mode == 0 else T.select_by_sql(BY, g1) if mode == 1 else T.select_by_sql(BY, g2, l2)
+                return r[0].v if r else None
+            r = T.get_by_sql(BY) if mode == 0 else T.get_by_sql(BY, g1) if mode == 1 else T.get_by_sql(BY, g2, l2)
+            return r.v if r is not None else None
+
+        def without_local():
+            if api == 0: return d.select('select $zz')[0]
+            if api == 1: return d.get('select $zz')
+            if api == 2: return 111 if d.exists('select 1 from Thing where v = $zz') else None
+            if api == 3: return d.execute('select $zz').fetchone()[0]
+            if api == 4:
+                r = T.select_by_sql(BY)
+                return r[0].v if r else None
+            r = T.get_by_sql(BY)
+            return r.v if r is not None else None
+
+        with db_session:
+            try:
+                d.execute('delete from Thing')
+                want = lv if mode == 0 else 111 if mode == 3 else gv
+                T(v=want)                              # the only row: lookups by value find it only with the right binding
+                d.execute('select 1')                 # (flushes the new rows)
+                got = without_local() if mode == 3 else with_local()
+            finally:
+                rollback()
+    return ok(got == want)
+
+
 def adapt_history_keys(t1: str, t2: str) -> bool:
     """
     pre: len(t1) <= 2 and len(t2) <= 2
